@@ -106,7 +106,9 @@ echo "latex $1" >> "$3"
 PNG_STUB = """#!/bin/sh
 c=''
 [ -r "$1" ] && IFS= read -r c < "$1"
-printf 'PNG[%%s]' "$c" > "$2.png"
+ext=png
+[ -n "$3" ] && ext="${3#-}"
+printf 'PNG[%%s]' "$c" > "$2.$ext"
 echo "png $*" >> %s
 """
 
@@ -936,18 +938,20 @@ def converter_case(world, case):
             flow.append((base + ".tex", {"output": o, "k": k}))
             expect.append((base + ".pdf", launch, pdfc if launch else "OLDPDF", "latex %s.tex" % base, "pdf"))
         else:
+            fmt = case.get("format", "png")         # the image format option: the image is <stem>.<format>
             aged_write(base + ".pdf", pdfc, 1500)
             if st == "present":
-                aged_write(base + ".png", "OLDPNG", 1000)
+                aged_write(base + "." + fmt, "OLDPNG", 1000)
             launch = case["overwrite"] or st == "missing" or ch is True
             flow.append((base + ".pdf", {"output": o, "k": k}))
-            expect.append((base + ".png", launch, png_text(pdfc) if launch else "OLDPNG", "png %s.pdf %s -png -singlefile" % (base, base), "png"))
+            expect.append((base + "." + fmt, launch, png_text(pdfc) if launch else "OLDPNG",
+                           "png %s.pdf %s -%s -singlefile" % (base, base, fmt), "png"))
     other = ("other.csv", {"output": {"filetype": "csv", "changed": True}})
     flow.insert(1, other)
     if el == "latex":
         elem = LaTeXToPDF(overwrite=case["overwrite"], verbose=0, create_command=world.create_command)
     else:
-        elem = PDFToPNG(overwrite=case["overwrite"], verbose=False)
+        elem = PDFToPNG(overwrite=case["overwrite"], verbose=False, **({"format": case["format"]} if "format" in case else {}))
     with watchdog(20):
         res = list(elem.run(iter(flow)))
     log = collections.Counter(world.read_log())
@@ -1018,6 +1022,15 @@ def scope_converters(R, world):
             go({"el": "png", "overwrite": ow, "vals": [v]})
         for v1, v2 in itertools.product(pstates, repeat=2):
             go({"el": "png", "overwrite": ow, "vals": [v1, v2]})
+    R.scope("PDFToPNG.run decision with another image format", "format in {jpeg, tiff} x overwrite x image missing/present x "
+            "output.changed absent/False/True, one value and all two-value flows: the image is <stem>.<format>; launch iff "
+            "overwrite|missing|changed; the yielded name is the image that exists", True)
+    for fmt in ("jpeg", "tiff"):
+        for ow in (False, True):
+            for v in pstates:
+                go({"el": "png", "overwrite": ow, "vals": [v], "format": fmt})
+        for v1, v2 in itertools.product(pstates, repeat=2):
+            go({"el": "png", "overwrite": False, "vals": [v1, v2], "format": fmt})
 
 
 # ---- MakeFilename
